@@ -171,7 +171,7 @@ CHECKS = {
           "loop by induction, the landing facts of ov_pcm_seek_page derived, hypotheses packaged as the executable test seek_hyps). The per-run check evaluates "
           "seek_hyps in the extracted model for every sample seek it performs (it held for 30-55 % of them) and demands success and position = target from the "
           "real code there. NOT theorems: byte seeks that change link or land on a link's last page, the continued-packet fallback, seeks finishing inside the last "
-          "page (end-of-stream trim), half-rate; these are checked per run by replaying random seek/read histories on chained files against the model (return "
+          "page (end-of-stream trim); half rate is proved separately (C20, SeekH_lemmas.v); the rest is checked per run by replaying random seek/read histories on chained files against the model (return "
           "code, positions, state, link) and by comparing every read bit for bit with an independent packet-level decode at the reported position.",
   "note": VF_NOTE,
   "technique": "Coq model + partial proof (consuming step; linear-read synchronisation invariant; sample, page and byte seeks exact/truthful on intact runs); step-by-step correspondence of extracted model vs lib/vorbisfile.c; bit-exact position oracle",
